@@ -13,7 +13,7 @@ def forced(rng, tier):
     """programs forcing the two shapes of the quantifier: a non-leaf ends last; an operation starts before the heads."""
     out = []
     n = 150 if tier == 'quick' else 3000
-    cfg = progs.GenConfig(n_cmds=(2, 10), p_rel=0.2)
+    cfg = progs.GenConfig(n_cmds=(2, 10), p_rel=0.2, reps=[0, 1, 1, 2, 3])
     for _ in range(n):
         r = random.Random(rng.getrandbits(64))
         base = progs.gen_program(r, cfg)
@@ -53,7 +53,8 @@ def forced(rng, tier):
 
 SPEC = streamcheck.StreamSpec(
     PROP, probes=['C04'],
-    cfg=progs.GenConfig(n_cmds=(4, 30), p_list=0.10, p_rel=0.55),
+    # counts include 0 (a registry sweep reaching 0 rounds): the duration of a block does not depend on its count (C04-m5)
+    cfg=progs.GenConfig(n_cmds=(4, 30), p_list=0.10, p_rel=0.55, reps=[0, 1, 1, 2, 3]),
     n_quick=900, n_thorough=30000,
     nontrivial=nontrivial,
     pysem=dict(groups=['timing']),
